@@ -106,6 +106,14 @@ def check(ctx, rep):
     rep.count("public submit entry points", n_entry, 12)
     _deferred(ctx, rep)
     _copy_helpers(ctx, rep)
+    # outcomes travel outward through done-callbacks: a layer's callback must not be lost (state changes and
+    # callback registration exclude each other -- shared with C02/C04), and a poll failure is routed to exactly
+    # the futures that poll call was shown (shared with C08)
+    from .c02 import trans_rule
+    from .c08 import snapshot_rule
+    futc = prog.cls("_Future")
+    trans_rule(ctx, rep, [c for c in prog.subclasses(futc, strict=True)], futc.methods["_me_invoke_callbacks"], "_me_lock")
+    snapshot_rule(ctx, rep)
 
 
 def _inline_policy(ci):
